@@ -94,6 +94,11 @@ def handmade():
                                 ("invariant_a5()", C15.fail_if(C15.get("x()") + [("PUSH", 6), "GT"] + C15.get("x()") + [("PUSH", 4), "LT", "AND"]))],
                   data={"tgt": tgt2.creation()})
     out.append(("invab", t2, (tgt2,)))
+    # (7) a function-level annotation belongs to its own test: check_a narrows the Panic codes to 0x11, check_b relies on
+    # the default (Panic(1) is a failure), check_c widens the loop bound
+    tb7 = e2e.arg(0) + [("PUSH", 5), "EQ", ("PUSHL", "bad"), "JUMPI", "STOP", ("LABEL", "bad")] + e2e.panic(1)
+    out.append(("annot", e2e.Spec("Annot", fns=[("check_a()", ["STOP"]), ("check_b(uint256)", tb7), ("check_c(uint256)", list(tb7))],
+                                  devdoc={"check_a()": "--panic-error-codes 0x11", "check_c(uint256)": "--loop 5"}), ()))
     return out
 
 
@@ -365,6 +370,80 @@ def cross_contract(run):
                               f"{brief(b[t])} ({[m for _, m in o.warnings][:1]})", {"ident": ident})
 
 
+# ---------------------------------------------------------------------------------------------------------------------
+# one `_main` run over several test contracts that share one build output (the target's artifact object is shared)
+# ---------------------------------------------------------------------------------------------------------------------
+def _addr_array(addrs):
+    it = [("PUSH", 0x20), "PUSH0", "MSTORE", ("PUSH", len(addrs)), ("PUSH", 0x20), "MSTORE"]
+    return it + [("PUSH", 0x40), "PUSH0", "RETURN"]
+
+
+def _selectors_getter(sigs):
+    """FuzzSelector[] with one entry: (target in slot 0, sigs)"""
+    words = [0x20, 1, 0x20, "ADDR", 0x40, len(sigs)] + [int.from_bytes(e2e.selector(x), "big") << 224 for x in sigs]
+    it = []
+    for k, w in enumerate(words):
+        it += ([("PUSH", 0), "SLOAD"] if w == "ADDR" else [("PUSH", w, 32) if w >= (1 << 200) else ("PUSH", w)]) + [("PUSH", 32 * k), "MSTORE"]
+    return it + [("PUSH", 32 * len(words)), "PUSH0", "RETURN"]
+
+
+def box_specs(first_filter: str):
+    """Box{a,b; setA; setB}; two invariant test contracts T1, T2 deploying a Box (same address in both) with different
+    targetSelectors: the one named in `first_filter` goes to T1.  Both check box.a() != 5."""
+    ret = [("PUSH", 0x80), "MSTORE", ("PUSH", 32), ("PUSH", 0x80), "RETURN"]
+    box = e2e.Spec("Box", fns=[("setA(uint256)", e2e.arg(0) + ["PUSH0", "SSTORE"]), ("setB(uint256)", e2e.arg(0) + [("PUSH", 1), "SSTORE"]),
+                               ("a()", ["PUSH0", "SLOAD"] + ret), ("b()", [("PUSH", 1), "SLOAD"] + ret)])
+    inv = e2e.ext_call([("PUSH", 0), "SLOAD"], "a()", static=True) + ["POP", ("PUSH", 0x80), "MLOAD", ("PUSH", 5), "EQ", ("PUSHL", "bad"), "JUMPI",
+                                                                       "STOP", ("LABEL", "bad")] + e2e.panic(1)
+    other = "setB(uint256)" if first_filter == "setA(uint256)" else "setA(uint256)"
+    specs = []
+    for name, flt in (("T1", first_filter), ("T2", other)):
+        fns = [("setUp()", e2e.create_from_data("box", store_slot=0)), ("invariant_a()", inv),
+               ("targetSenders()", _addr_array([])), ("excludeSenders()", _addr_array([])), ("targetContracts()", _addr_array([])),
+               ("excludeContracts()", _addr_array([])), ("targetSelectors()", _selectors_getter([flt])), ("excludeSelectors()", _addr_array([]))]
+        specs.append(e2e.Spec(name, fns=fns, data={"box": box.creation()}))
+    return specs, box
+
+
+def _main_results(arg):
+    first_filter, which = arg
+    specs, box = box_specs(first_filter)
+    sel = [sp for sp in specs if sp.name in which]
+    o = e2e.run_main(sel + [box], ["--invariant-depth", "2", "--solver-timeout-assertion", "60000"])
+    return {r.name + "@" + str(k): r.exitcode for k, r in enumerate(o.results)}, (repr(o.exception) if o.exception else None), \
+        {ln.split(":")[-1].split()[0]: None for ln in o.stdout.splitlines() if ln.startswith("Running")}, o.stdout[-1500:]
+
+
+def shared_build_output(run):
+    """T1 and T2 in ONE _main run (one parsed build output) vs each alone in a fresh process"""
+    for first in ("setA(uint256)", "setB(uint256)"):
+        base = common.parallel_map(_main_results, [(first, ("T1",)), (first, ("T2",))], 2)
+        if any(isinstance(b, tuple) and b and b[0] == "error" for b in base):
+            run.inconc("cross-contract", f"shared-build/{first}", "baseline worker failed")
+            continue
+        both = common.parallel_map(_main_results, [(first, ("T1", "T2"))], 1)[0]
+        if isinstance(both, tuple) and both and both[0] == "error":
+            run.harness_error("shared-build worker crashed: " + both[1].strip().splitlines()[-1])
+            continue
+        alone = [list(b[0].values()) for b in base]
+        together = list(both[0].values())
+        ident = f"T1[{first.split('(')[0]}],T2 in one _main run vs each alone"
+        if any(b[1] for b in base) or both[1] or len(together) != 2 or any(len(a) != 1 for a in alone):
+            run.inconc("cross-contract", ident, f"runs incomplete: {[b[1] for b in base]} {both[1]} {together} {alone}")
+        elif together == [alone[0][0], alone[1][0]]:
+            run.ok("cross-contract", ident)
+            if sorted(together) != [0, 1]:
+                run.harness_error(f"shared-build vacuity: expected one FAIL and one PASS, got {together}")
+        else:
+            again = common.parallel_map(_main_results, [(first, ("T1", "T2"))], 1)[0]
+            if list(again[0].values()) == together:
+                run.violation("cross-contract", f"cross/shared-build/{first.split('(')[0]}-first",
+                              f"{ident}: exit codes {together} in one run, {[alone[0][0], alone[1][0]]} when each contract runs alone "
+                              "(same artifacts, same options)", {"first_filter": first, "together": together, "alone": alone, "stdout": both[3]})
+            else:
+                run.inconc("cross-contract", ident, "difference did not reproduce")
+
+
 def _path_hist(job):
     import logging
 
@@ -409,7 +488,7 @@ def path_discipline(run):
 def main(run: common.Run):
     tier = run.tier
     n = 2 if tier == "quick" else 40
-    run.bounds = {"handmade_contracts": 6, "generated_contracts": n, "tests_per_contract": "2..4", "orders": "all permutations (<= 3 tests) / every 4th",
+    run.bounds = {"handmade_contracts": 7, "generated_contracts": n, "tests_per_contract": "2..4", "orders": "all permutations (<= 3 tests) / every 4th",
                   "uid_stubs": ["const", "counter"], "solver_cap_s": 20 if tier == "quick" else 60}
     run.functions_encoded = ["halmos.__main__.run_contract / run_tests / run_test / run_message", "halmos.sevm.Path.extend_path / branch",
                              "halmos.sevm.KeccakRegistry.copy", "halmos.sevm.Exec (setup_ex reuse)", "halmos.utils.uid", "halmos.mapper.BuildOut",
@@ -429,6 +508,7 @@ def main(run: common.Run):
         for k, v in res[1].items():
             total[k] = total.get(k, 0) + v
     cross_contract(run)
+    shared_build_output(run)
     path_discipline(run)
     run.extra.update(total)
     run.extra["rule"] = "one obligation per (test, run variant): equality of observable results; plus one solver-decided path-set equivalence per (regular test, order/uid variant)"
